@@ -138,4 +138,21 @@ PROPS = {
         "quick": {"budget_s": 90, "chunk": 10},
         "thorough": {"budget_s": 1200, "chunk": 10, "minimise_s": 180},
     },
+    "C16": {
+        "test": "TestC16",
+        "level": "exploration",
+        "world": "B: discovery server node (SQL seam) and two client nodes hosting three registering subjects; real refresh/update loops on the virtual clock",
+        "rule": "each run: 2-4 phases of 2-3 concurrent tasks (activate, deactivate/retract, scripted continuing poll, defective registration by a scripted client: "
+                "wrong audience, validity above the maximum, JSON-LD format, no credentials, surplus credential, retraction of an unknown id) separated by up to 28 "
+                "virtual minutes (owners refresh at 45% of the validity); one third of the runs inject HTTP request loss, response loss and 5xx on the discovery "
+                "endpoints; then convergence of the real clients, optionally a server reset with a new seed, optionally expiry with a stopped client. "
+                "Non-trivial: at least one accepted registration or scripted poll; distinct = distinct decision hashes.",
+        "invariants": ["C16.admission", "C16.timestamps", "C16.no-skip", "C16.converge", "C16.search"],
+        "assumptions": ["client-side storage faults and client crashes mid-batch are outside the property's quantifier and are not injected (DESIGN.md, observation O1)",
+                        "convergence is judged against registrations older than two refresh intervals, because owners keep refreshing their entries",
+                        "retraction markers are compared by their effect only (clients cannot validate them)"],
+        "probes_expected": ["server-reset-new-seed", "http.response-lost", "http.request-lost"],
+        "quick": {"budget_s": 120, "chunk": 6, "chunk_timeout_s": 1200},
+        "thorough": {"budget_s": 1500, "chunk": 6, "minimise_s": 240, "chunk_timeout_s": 2400},
+    },
 }
